@@ -94,7 +94,12 @@ func TestC49_StopAnywhere(t *testing.T) {
 		nontrivial := false
 		var steps []string
 		nsBubble(rt, func(rt *rapid.T, s *nsSim) {
-			w := nsGenWorld(rt, s, nsWorldOpts{minHosts: 2, maxHosts: 3, lighthouse: 0.5, relay: 0.5, partition: 0.5, v6: true})
+			// a small lighthouse query buffer (configurable upstream, default 64) lets a handful of tunnels
+			// reach the "queue full" states that otherwise need dozens of peers
+			qbuf := rapid.SampledFrom([]int{64, 64, 1, 2}).Draw(rt, "queryBuffer")
+			w := nsGenWorld(rt, s, nsWorldOpts{minHosts: 2, maxHosts: 4, lighthouse: 0.6, relay: 0.5, partition: 0.5, v6: true, extra: func(sp *nsNodeSpec, cfg nsM) {
+				cfg["handshakes"] = nsM{"query_buffer": qbuf}
+			}})
 			w.pid = "C49"
 			h := &nsHist{rt: rt, w: w, delivered: map[int]map[int]bool{}, stats: map[string]int{}}
 
@@ -160,7 +165,7 @@ func TestC49_StopAnywhere(t *testing.T) {
 			s.settle()
 
 			nsteps := rapid.IntRange(3, 45).Draw(rt, "nsteps")
-			ops := []string{"tun", "tun", "tun", "tun", "deliver", "deliver", "flush", "flush", "drop", "advance", "advance", "close", "rehandshake", "reload", "stop", "stop", "punchStorm"}
+			ops := []string{"tun", "tun", "tun", "tun", "deliver", "deliver", "flush", "flush", "drop", "advance", "advance", "close", "rehandshake", "reload", "stop", "stop", "punchStorm", "rebind"}
 			for step := 0; step < nsteps; step++ {
 				op := rapid.SampledFrom(ops).Draw(rt, "op")
 				switch op {
@@ -190,6 +195,20 @@ func TestC49_StopAnywhere(t *testing.T) {
 						stop(x, "right-after-reload")
 					}
 					s.settle()
+				case "rebind":
+					// the underlay socket was rebound (roaming laptop): every tunnel re-queries the lighthouse on
+					// its next send - including, possibly, the close messages of a Stop that follows
+					x := nsPickLive(rt, w, "rebind.node")
+					if x < 0 {
+						continue
+					}
+					w.nodes[x].ctrl.RebindUDPServer()
+					s.settle()
+					h.note("rebind %s (%d tunnels)", w.nodes[x].name, len(w.nodes[x].allTunnels()))
+					phaseLabels = append(phaseLabels, "rebind")
+					if rapid.IntRange(0, 1).Draw(rt, "stopAfterRebind") == 0 {
+						stop(x, "right-after-rebind")
+					}
 				case "punchStorm":
 					// queued lighthouse work: what a burst of punch notifications leaves behind - many delayed
 					// punch jobs waiting on their timers (1 s by default) when the node is stopped
